@@ -29,9 +29,9 @@ Qed.
 (* a referenced sector (that was not explicitly deleted) reads back the bytes that hash to its root *)
 Lemma referenced_readableE XE d r : dinvE XE d -> refd (md d) r = true -> ~ XE r -> read_result d r = Some r.
 Proof.
-  intros I H HE. destruct (d_refs d I r H HE) as [v [i [S [C D]]]].
+  intros I H HE. destruct (d_refs d I r H HE) as [[v [i [S [C D]]]] NF].
   unfold read_result. destruct (cget r (cache d)) as [c|] eqn:Hc.
-  - f_equal. apply (d_cache d I r c Hc). exists v, i; auto.
+  - f_equal. apply (d_cache d I r c Hc); [|exact NF]. exists v, i; auto.
   - unfold locate. rewrite (d_known d I r v i S).
     apply (vfind_iff (md d) r v i (d_inv d I)) in S. rewrite S. now rewrite C.
 Qed.
@@ -199,6 +199,7 @@ Proof.
   destruct ((fidx =? idx)%N && mig_valid_target (md d) v start to) eqn:V; cbn [negb]; [|exact I].
   apply Bool.andb_true_iff in V as [_ V].
   destruct (code =? 1)%N; [apply IH; exact I|].
+  destruct (code =? 4)%N; [destruct (in_flight r (thr d)); [apply IH; exact I|exact I]|].
   destruct (code =? 2)%N.
   { destruct (content d v idx =? r)%N; [exact I|]. apply IH; exact I. }
   destruct (content d v idx =? r)%N; cbn [negb]; [|exact I].
@@ -267,6 +268,7 @@ Definition demo : list dop :=
 Lemma demo_ok : steps_ok (dinit 1) demo.
 Proof.
   unfold demo. cbn [steps_ok]. repeat split.
+  all: try (intros t r j to H; vm_compute in H; discriminate).
   all: try (intros r H; vm_compute in H; discriminate).
   all: try (vm_compute; discriminate).
   all: try reflexivity.
@@ -276,7 +278,7 @@ Proof.
   assert (r = 7%N).
   { destruct (7 =? r)%N eqn:E; [now apply N.eqb_eq in E|]. vm_compute in H.
     destruct r; try discriminate. destruct p; try discriminate; destruct p; try discriminate; destruct p; discriminate. }
-  subst r. exists 1%N, 1%N. vm_compute. auto.
+  subst r. split; [|reflexivity]. exists 1%N, 1%N. vm_compute. auto.
 Qed.
 
 Lemma demo_nonvacuous :
@@ -284,3 +286,68 @@ Lemma demo_nonvacuous :
   slot_at (md (druns (dinit 1) demo)) 2 0 = Some (Some 7%N) /\
   read_result (druns (dinit 1) demo) 7 = Some 7%N.
 Proof. split; [exact demo_ok|]. vm_compute. auto. Qed.
+
+(** * Clause (b) of the former [step_ok] is gone: a run it excluded
+   upload, prune of the unreferenced copy, re-upload into the very slot that still holds the
+   sector's bytes (the DReserve finds [content = r]), data write, Sync, reference, crash. *)
+Definition demo_stale : list dop :=
+  [DMeta (AddVol 1 false); DMeta (SetAvail 1 true); DMeta (Grow 1 2);
+   DReserve 1 7 (Some (1, 1)); DWrite 1 true; DSync; DAge; DPrune;
+   DReserve 2 7 (Some (1, 1)); DRead 7 false; DWrite 2 true; DSync; DMeta (AddTemp [(7, 100)]);
+   DCrash; DRead 7 false]%N.
+
+Lemma demo_stale_ok : steps_ok (dinit 1) demo_stale.
+Proof.
+  unfold demo_stale. cbn [steps_ok]. repeat split.
+  all: try (intros r H; vm_compute in H; discriminate).
+  intros r H. right. vm_compute in H.
+  assert (r = 7%N).
+  { destruct (7 =? r)%N eqn:E; [now apply N.eqb_eq in E|]. vm_compute in H.
+    destruct r; try discriminate. destruct p; try discriminate; destruct p; try discriminate; destruct p; discriminate. }
+  subst r. split; [|reflexivity]. exists 1%N, 1%N. vm_compute. auto.
+Qed.
+
+Lemma demo_stale_nonvacuous :
+  steps_ok (dinit 1) demo_stale /\
+  (* the slot handed to the second upload already holds the sector's bytes *)
+  (let d := druns (dinit 1) (firstn 8 demo_stale) in
+   slot_at (md d) 1 1 = Some None /\ content d 1 1 = 7%N) /\
+  refd (md (druns (dinit 1) demo_stale)) 7 = true /\
+  read_result (druns (dinit 1) demo_stale) 7 = Some 7%N.
+Proof. split; [exact demo_stale_ok|]. vm_compute. auto. Qed.
+
+(** * Clause (m) cannot be dropped: a migration that moves a sector whose upload is in flight
+   The upload of 7 was handed the slot (1,1) that still holds 7's bytes (stale copy of a pruned
+   upload); a shrink's migration reads the slot, finds the right root and moves the sector to
+   (1,0); the shrink is not completed, the vacated slot (1,1) goes to sector 8 — written, synced,
+   referenced; then the first writer, still holding location (1,1), writes. *)
+Definition step_ok_but_m (d : dstate) (o : dop) : Prop :=
+  match o with DMigrate _ _ _ => True | _ => step_ok d o end.
+Fixpoint steps_ok_but_m (d : dstate) (l : list dop) : Prop :=
+  match l with [] => True | o :: t => step_ok_but_m d o /\ steps_ok_but_m (fst (dstep d o)) t end.
+
+Definition witness_migrate_in_flight : list dop :=
+  [DMeta (AddVol 1 false); DMeta (SetAvail 1 true); DMeta (Grow 1 2);
+   DReserve 1 7 (Some (1, 1)); DWrite 1 true; DSync; DAge; DPrune;
+   DReserve 2 7 (Some (1, 1));
+   DMeta (SetRO 1 true); DMigrate 1 1 [(1, (1, 0), 0)]; DMeta (SetRO 1 false);
+   DReserve 3 8 (Some (1, 1)); DWrite 3 true; DSync; DMeta (AddTemp [(8, 100)]);
+   DWrite 2 true]%N.
+
+Lemma migrate_in_flight_refuted :
+  exists size l q,
+    forallb calm l = true /\ disciplined (dtrace (dinit size) l) = true /\
+    steps_ok_but_m (dinit size) l /\
+    refd (md (druns (dinit size) l)) q = true /\ read_result (druns (dinit size) l) q <> Some q.
+Proof.
+  exists 0%N, witness_migrate_in_flight, 8%N.
+  split; [reflexivity|]. split; [vm_compute; reflexivity|]. split.
+  - unfold witness_migrate_in_flight. cbn [steps_ok_but_m step_ok_but_m]. repeat split.
+    all: try (intros r H; vm_compute in H; discriminate).
+    intros r H. right. vm_compute in H.
+    assert (r = 8%N).
+    { destruct (8 =? r)%N eqn:E; [now apply N.eqb_eq in E|]. vm_compute in H.
+      destruct r as [|p]; try discriminate. repeat (destruct p as [p|p|]; try discriminate). }
+    subst r. split; [|reflexivity]. exists 1%N, 1%N. vm_compute. auto.
+  - vm_compute. split; [reflexivity|discriminate].
+Qed.
